@@ -9,6 +9,12 @@
 
 using namespace bt;
 
+// ASan's per-allocation stack capture dominates the run time of these allocation-heavy harnesses; the access that trips
+// ASan is still reported. For full allocation/free stacks replay with ASAN_OPTIONS=malloc_context_size=30.
+extern "C" const char* __asan_default_options() {
+    return "malloc_context_size=0";
+}
+
 static const char* TAG_CONC = "c26c";
 static const char* TAG_SEQ = "c26s";
 
@@ -343,7 +349,10 @@ static void accountSeq(hc::Stats& st, const SeqCase& c, const SeqResult& r) {
 
 static SeqCase genSeqCase() {
     SeqCase c;
-    const auto& cfgs = allConfigs();
+    // small nodes twice as often as the default block size: erase reaches inner nodes, merges and root shrinks there
+    std::vector<CfgId> cfgs;
+    for (auto& x : allConfigs())
+        for (int r = 0; r < (x.maxKeys == 0 ? 1 : x.maxKeys == 8 ? 2 : 3); r++) cfgs.push_back(x);
     const CfgId cfg = cfgs[*hc::R<std::size_t>(0, cfgs.size())];
     c.arity = cfg.arity;
     c.maxKeys = cfg.maxKeys;
@@ -360,17 +369,26 @@ static SeqCase genSeqCase() {
     const int pmode = *hc::R(0, 3);
     if (pmode == 1) std::sort(c.prefill.begin(), c.prefill.end(), keyLess);
     if (pmode == 2) std::sort(c.prefill.begin(), c.prefill.end(), [](const KeyV& a, const KeyV& b) { return keyLess(b, a); });
-    const int nops = *hc::R(6, 49);
+    const int nops = *hc::R(8, 61);
+    std::vector<KeyV> content = c.prefill;   // keys inserted so far: most erases aim at them
     for (int i = 0; i < nops; i++) {
         char kind = *rc::gen::weightedElement<char>(
                 {{30, 'I'}, {26, 'E'}, {7, 'X'}, {6, 'Y'}, {4, 'F'}, {3, 'C'}, {5, 'L'}, {5, 'U'}, {3, 'N'}, {1, 'S'}, {1, 'T'}});
-        if (*hc::R(0, 150) == 0) kind = 'R';
+        if (*hc::R(0, 500) == 0) kind = 'R';
         if (!isSet && (kind == 'E' || kind == 'X' || kind == 'Y' || kind == 'N')) kind = kind == 'E' ? 'I' : kind == 'N' ? 'C' : 'L';
-        c.ops.push_back(SeqOp{kind, opHasKey(kind) ? genKey(d) : KeyV{0, 0, 0}});
+        KeyV key{0, 0, 0};
+        if (opHasKey(kind)) {
+            if (kind != 'I' && !content.empty() && *hc::R(0, 4) != 0)
+                key = content[*hc::R<std::size_t>(0, content.size())];
+            else
+                key = genKey(d);
+            if (kind == 'I') content.push_back(key);
+        }
+        c.ops.push_back(SeqOp{kind, key});
     }
     // drain: erase the tree's content key by key (ascending / descending / generated order) down to (nearly) nothing,
     // which walks through merges, borrows and root shrinks; then insert again
-    if (*hc::R(0, 4) == 0 && isSet) {
+    if (*hc::R(0, 3) == 0 && isSet) {
         std::vector<KeyV> keys = c.prefill;
         for (auto& o : c.ops)
             if (o.kind == 'I') keys.push_back(o.key);
